@@ -4,6 +4,7 @@ import (
 	"fmt"
 	"math/rand/v2"
 	"reflect"
+	"strings"
 
 	"github.com/xjslang/xjs/ast"
 	"github.com/xjslang/xjs/lexer"
@@ -41,6 +42,49 @@ type icStack struct {
 	plugMask           uint64 // with viaPlugin: bit i set = the i-th installed interceptor goes through Install(plugin), else directly
 	interleave         []byte // installation order of kinds, e.g. "tsetse"
 	stageAt            int    // interceptors interleave[stageAt:] are installed only after a first parser was built from the builders
+	regs               []opReg // operators registered on the builders before any interceptor is installed (custom-operators stratum)
+}
+
+// newBuilders returns the lexer and parser builders the interceptors are installed on: plain ones, or ones that carry
+// the stack's registered operators (C05's buildWith: token types, the token interceptor that lexes the operator
+// characters, the operator registrations).
+func (s *icStack) newBuilders(m Mode) (*lexer.Builder, *parser.Builder) {
+	if len(s.regs) > 0 {
+		pb, err := buildWith(s.regs, m)
+		if err != nil {
+			panic("registration refused: " + err.Error())
+		}
+		return pb.LexerBuilder, pb
+	}
+	lb := lexer.NewBuilder()
+	pb := parser.NewBuilder(lb)
+	if m.Tolerant {
+		pb.WithTolerantMode(true)
+	}
+	if m.Smart {
+		pb.WithSmartSemicolon(true)
+	}
+	return lb, pb
+}
+
+// baseParse is the interceptor-free parse of the same configuration.
+func (s *icStack) baseParse(src string, m Mode) ParseOut {
+	if len(s.regs) == 0 {
+		return parse(src, m)
+	}
+	_, pb := s.newBuilders(m)
+	p := pb.Build(src)
+	prog, err := p.ParseProgram()
+	return ParseOut{Prog: prog, Err: err, Errors: p.Errors(), P: p}
+}
+
+// plainTokens is the interceptor-free token stream of the same configuration.
+func (s *icStack) plainTokens(src string) []token.Token {
+	if len(s.regs) == 0 {
+		return plainTokens(src)
+	}
+	lb, _ := s.newBuilders(Mode{})
+	return drainTokens(lb.Build(src), len(src)+2)
 }
 
 // prefix is the stack consisting of the first n installed interceptors.
@@ -71,14 +115,7 @@ type icRun struct {
 // build installs the first stageAt interceptors and returns the builder plus a function that installs the rest
 // (on the same lexer and parser builders), to be called after a parser has already been built.
 func (s *icStack) build(m Mode, run *icRun) (*parser.Builder, func()) {
-	lb := lexer.NewBuilder()
-	pb := parser.NewBuilder(lb)
-	if m.Tolerant {
-		pb.WithTolerantMode(true)
-	}
-	if m.Smart {
-		pb.WithSmartSemicolon(true)
-	}
+	lb, pb := s.newBuilders(m)
 	ti, si, ei := 0, 0, 0
 	install := func(k byte) {
 		switch k {
@@ -282,13 +319,20 @@ func randStack(r *rand.Rand, allowReentrant bool) *icStack {
 }
 
 func (s *icStack) String() string {
-	return fmt.Sprintf("tok=%d stmt=%d expr=%d reentrant=%v dispatch=%v plugin=%v order=%s|%s", s.nTok, s.nStmt, s.nExpr, s.reentrant, s.dispatch, fmt.Sprintf("%v/%x", s.viaPlugin, s.plugMask&0xffffff), string(s.interleave[:s.stageAt]), string(s.interleave[s.stageAt:]))
+	regs := ""
+	if len(s.regs) > 0 {
+		regs = fmt.Sprintf(" registered=%v", s.regs)
+	}
+	return fmt.Sprintf("tok=%d stmt=%d expr=%d reentrant=%v dispatch=%v plugin=%v order=%s|%s%s", s.nTok, s.nStmt, s.nExpr, s.reentrant, s.dispatch, fmt.Sprintf("%v/%x", s.viaPlugin, s.plugMask&0xffffff), string(s.interleave[:s.stageAt]), string(s.interleave[s.stageAt:]), regs)
 }
 
 func plainTokens(src string) []token.Token {
-	lx := lexer.NewBuilder().Build(src)
+	return drainTokens(lexer.NewBuilder().Build(src), len(src)+2)
+}
+
+func drainTokens(lx *lexer.Lexer, max int) []token.Token {
 	var out []token.Token
-	for i := 0; i < len(src)+2; i++ {
+	for i := 0; i < max; i++ {
 		tk := lx.NextToken()
 		out = append(out, tk)
 		if tk.Type == token.EOF {
@@ -303,7 +347,7 @@ func plainTokens(src string) []token.Token {
 func checkInterception(t *fw.T, src string, rd *gen.Rendered, s *icStack, m Mode, seed uint64) {
 	wit := func() map[string]any { return map[string]any{"source": src, "stack": s.String(), "mode": m.String()} }
 	var base ParseOut
-	if !t.Guard("interceptor-free parse", wit, func() { base = parse(src, m) }) {
+	if !t.Guard("interceptor-free parse", wit, func() { base = s.baseParse(src, m) }) {
 		return
 	}
 	run := &icRun{}
@@ -397,7 +441,7 @@ func checkOneInterceptedParse(t *fw.T, src string, rd *gen.Rendered, s *icStack,
 	if s.nTok > 0 && rep <= 0 {
 		// the lexer driven directly: every request for a token - also the requests at and after end of input - goes
 		// through every token interceptor exactly once (a plugin may turn end-of-input into synthetic tokens)
-		nreq := len(plainTokens(src)) + 3
+		nreq := len(s.plainTokens(src)) + 3
 		before := len(run.events)
 		okLex := t.Guard("lexer with token interceptors", wit, func() {
 			lx := pb.LexerBuilder.Build(src)
@@ -430,7 +474,7 @@ func checkOneInterceptedParse(t *fw.T, src string, rd *gen.Rendered, s *icStack,
 		}
 	}
 	if s.nTok > 0 {
-		plain := plainTokens(src)
+		plain := s.plainTokens(src)
 		// tokens seen by the innermost... index 0 is the first installed token interceptor: compare up to the first EOF
 		seen := run.tokens
 		n := 0
@@ -590,6 +634,180 @@ func checkOneInterceptedParse(t *fw.T, src string, rd *gen.Rendered, s *icStack,
 	return true
 }
 
+// ---- registered operators x interceptors ----------------------------------------------------------------------------
+
+// analogOf returns the tree in which every registered operator is replaced by a built-in operator of the same level
+// (infix levels 3..8 have one; a registered prefix operator binds like `!`), or nil if some operator has no built-in
+// analog. Renderings of both trees have the same parentheses and therefore the same token count, token by token.
+func analogOf(n *cnode) *cnode {
+	builtinAt := map[int]string{3: "||", 4: "&&", 5: "==", 6: "<", 7: "+", 8: "*"}
+	c := *n
+	c.kids = nil
+	switch n.kind {
+	case "cin":
+		op, ok := builtinAt[n.level]
+		if !ok {
+			return nil
+		}
+		c.kind, c.op = "bin", op
+	case "cpre":
+		c.kind, c.op = "un", "!"
+	case "cpost":
+		return nil
+	}
+	for _, k := range n.kids {
+		a := analogOf(k)
+		if a == nil {
+			return nil
+		}
+		c.kids = append(c.kids, a)
+	}
+	return &c
+}
+
+// stepIndices parses src with one pass-through statement and one pass-through expression interceptor and returns, per
+// kind, the token indices of the current tokens the interceptor saw, in order.
+func stepIndices(s *icStack, src string) (stmt, expr []int, errs int) {
+	toks := s.plainTokens(src)
+	idx := map[token.Position]int{}
+	for i, tk := range toks {
+		idx[tk.Start] = i
+	}
+	_, pb := s.newBuilders(Mode{})
+	pb.UseStatementInterceptor(func(p *parser.Parser, next func() ast.Statement) ast.Statement {
+		stmt = append(stmt, idx[p.CurrentToken.Start])
+		return next()
+	})
+	pb.UseExpressionInterceptor(func(p *parser.Parser, next func() ast.Expression) ast.Expression {
+		expr = append(expr, idx[p.CurrentToken.Start])
+		return next()
+	})
+	p := pb.Build(src)
+	p.ParseProgram()
+	return stmt, expr, len(p.Errors())
+}
+
+// runC04Custom: the builders carry registered prefix / infix / postfix operators (levels 2..13, also above MEMBER) and
+// the programs use them. Everything the property says about interceptors must hold on such builders as well: same tree
+// and errors as the interceptor-free parse of the same configuration (pass-through and re-entrant stacks), same step
+// sequences for all interceptors of a kind, installation order. In addition, where every registered operator has a
+// built-in operator of the same level, a pass-through interceptor must be offered exactly the steps it is offered on
+// the text in which the built-in operators stand in for the registered ones: operands of registered operators are
+// parse steps like any other.
+func runC04Custom(t *fw.T) {
+	r := t.Rand()
+	n := 1 + r.IntN(3)
+	var regs []opReg
+	used := map[byte]bool{}
+	analogOnly := r.IntN(2) == 0
+	for i := 0; i < n; i++ {
+		ch := customChars[r.IntN(len(customChars))]
+		if used[ch] {
+			continue
+		}
+		used[ch] = true
+		role := []string{"infix", "infix", "infix", "prefix", "postfix"}[r.IntN(5)]
+		lvl := 2 + r.IntN(12)
+		if r.IntN(4) == 0 {
+			lvl = 13
+		}
+		if analogOnly {
+			lvl = 3 + r.IntN(6)
+			if role == "postfix" {
+				role = "prefix"
+			}
+		}
+		regs = append(regs, opReg{ch, role, lvl})
+	}
+	var stmts []string
+	var trees []*cnode
+	for i, k := 0, 1+r.IntN(3); i < k; i++ {
+		tr := randCustomTree(r, 1+r.IntN(5), regs)
+		trees = append(trees, tr)
+		stmts = append(stmts, tr.String())
+	}
+	src := strings.Join(stmts, ";\n") + ";"
+	for i := 0; i < 3; i++ {
+		s := randStack(r, i > 0)
+		s.regs = regs
+		checkInterception(t, src, nil, s, Mode{}, r.Uint64())
+		t.Distinct(src + s.String())
+	}
+	t.Count("programs_with_registered_operators", 1)
+	for _, rg := range regs {
+		t.Feature("registered operator role/level under interceptors", fmt.Sprintf("%s/%d", rg.role, rg.level))
+	}
+	if !analogOnly {
+		return
+	}
+	var astmts []string
+	for _, tr := range trees {
+		a := analogOf(tr)
+		if a == nil {
+			return
+		}
+		astmts = append(astmts, a.String())
+	}
+	asrc := strings.Join(astmts, ";\n") + ";"
+	wit := func() map[string]any {
+		return map[string]any{"source": src, "registered": fmt.Sprint(regs), "same_text_with_built_in_operators": asrc}
+	}
+	var cs, ce, as, ae []int
+	var cerr, aerr int
+	if !t.Guard("parse with a pass-through interceptor", wit, func() {
+		cs, ce, cerr = stepIndices(&icStack{regs: regs}, src)
+		as, ae, aerr = stepIndices(&icStack{}, asrc)
+	}) {
+		return
+	}
+	if cerr != 0 || aerr != 0 {
+		return // grouping / acceptance of registered operators is C05's business
+	}
+	t.Count("step_sequences_compared_with_the_built_in_analog", 1)
+	if !reflect.DeepEqual(cs, as) {
+		w := wit()
+		w["statement_steps_token_indices"], w["with_built_in_operators"] = cs, as
+		t.Violate("steps-differ", "statement/registered operators vs built-in operators of the same level", fmt.Sprintf("statement interceptor is offered different steps on %q than on %q", clip(src, 120), clip(asrc, 120)), w)
+		return
+	}
+	if !reflect.DeepEqual(ce, ae) {
+		w := wit()
+		w["expression_steps_token_indices"], w["with_built_in_operators"] = ce, ae
+		t.Violate("steps-differ", "expression/registered operators vs built-in operators of the same level", fmt.Sprintf("expression interceptor is offered different steps on %q than on %q (token indices %v vs %v)", clip(src, 120), clip(asrc, 120), ce, ae), w)
+	}
+}
+
+var c04DeepShapes = []func(n int) string{
+	func(n int) string { return nest("(", "x", ")", n) },
+	func(n int) string { return nest("[", "1", "]", n) },
+	func(n int) string { return nest("{", "", "}", n) },
+	func(n int) string { return strings.Repeat("!", n) + "x" },
+	func(n int) string { return "a" + strings.Repeat(".b", n) },
+	func(n int) string { return "a" + strings.Repeat("(1)", n) },
+	func(n int) string { return strings.Repeat("if (a) ", n) + "b" },
+	func(n int) string { return nest("f(", "", ")", n) },
+	func(n int) string { return nest("function(){", "", "}", n) + "()" },
+	func(n int) string { return strings.Repeat("a = ", n) + "1" },
+	func(n int) string { return "x" + strings.Repeat(" + 1", n) },
+	func(n int) string { return nest("{ let v = [", "1", "] }", n) },
+	func(n int) string { return strings.Repeat("(", n) },
+	func(n int) string { return strings.Repeat("{", n) },
+}
+
+// runC04Deep: deeply nested inputs (valid and unclosed) under interceptor stacks. The number of installed interceptors
+// must not change what is accepted: any resource that is consumed per interceptor and per nesting level shows here.
+func runC04Deep(t *fw.T) {
+	r := t.Rand()
+	shape := c04DeepShapes[t.Index%len(c04DeepShapes)]
+	depths := []int{40, 150, 400, 1000}
+	d := depths[(t.Index/len(c04DeepShapes))%len(depths)]
+	src := shape(d)
+	s := randStack(r, r.IntN(2) == 0)
+	checkInterception(t, src, nil, s, AllModes[r.IntN(4)], r.Uint64())
+	t.Distinct(fmt.Sprint(t.Index%len(c04DeepShapes), d, s.String()))
+	t.Feature("nesting depth x interceptors per kind", fmt.Sprintf("%d x %d", d, max(s.nStmt, s.nExpr)))
+}
+
 func init() {
 	fw.Register(&fw.Property{
 		ID: "C04", Level: "exploration",
@@ -634,6 +852,17 @@ func init() {
 				s := randStack(r, r.IntN(2) == 0)
 				checkInterception(t, src, nil, s, AllModes[r.IntN(4)], r.Uint64())
 				t.Distinct(src + s.String())
+			}},
+			{Name: "registered-operators", Quick: 6000, Thorough: 40000, Run: runC04Custom},
+			{Name: "deep-nesting", Quick: 4 * 14 * 4, Thorough: 4 * 14 * 16, Run: runC04Deep},
+			{Name: "large-programs", Quick: 2 * len(gen.BigKinds), Thorough: 8 * len(gen.BigKinds), Run: func(t *fw.T) {
+				prog, kind, n := bigCase(t)
+				r := t.Rand()
+				l := bigLayouts[r.IntN(len(bigLayouts))]
+				rd := gen.Render(prog, r, l.E, l.L)
+				s := randStack(r, r.IntN(2) == 0)
+				checkInterception(t, rd.Src, rd, s, Mode{}, r.Uint64())
+				t.Distinct(fmt.Sprint(kind, n, s.String()))
 			}},
 		},
 	})
